@@ -271,19 +271,45 @@ func c08SkipSets(c *Ctx) {
 		c.Undecided("R08b", "DigestXapTar", "-", "function not found")
 	} else {
 		c.Analysed(p.FName(fn))
-		rs := p.callsIn(fn, "lib/signxap.removeSignature")
-		ok := len(rs) == 1
-		if ok {
-			ok = false
-			for _, b := range fn.Blocks {
-				for _, in := range b.Instrs {
-					ci, isCall := in.(ssa.CallInstruction)
-					if !isCall || !ci.Common().IsInvoke() || ci.Common().Method.Name() != "Write" {
-						continue
+		// what goes into the digest after the body is the directory cut at the trailer: a value one
+		// of whose definitions is x[:n] with n computed from the trailer's size field - made in the
+		// function itself or by a helper of the package (removeSignature today)
+		var cuts func(v ssa.Value, d int) bool
+		cuts = func(v ssa.Value, d int) bool {
+			if d > 3 {
+				return false
+			}
+			for _, lf := range phiLeaves(v, nil, map[*ssa.Phi]bool{}) {
+				switch x := lf.V.(type) {
+				case *ssa.Slice:
+					if x.High != nil && dependsOn(x.High, func(y ssa.Value) bool {
+						_, f, _ := p.fieldLoad(y)
+						_, f2, _ := p.fieldAddr(y)
+						return f == "TrailerSize" || f2 == "TrailerSize"
+					}) {
+						return true
 					}
-					if len(ci.Common().Args) == 1 && ci.Common().Args[0] == rs[0].Value() {
-						ok = true
+				case *ssa.Call:
+					if h := x.Call.StaticCallee(); h != nil && h.Pkg == fn.Pkg && h.Blocks != nil {
+						for _, r := range returnsOf(h) {
+							if cuts(retVal(r, 0), d+1) {
+								return true
+							}
+						}
 					}
+				}
+			}
+			return false
+		}
+		ok := false
+		for _, b := range fn.Blocks {
+			for _, in := range b.Instrs {
+				ci, isCall := in.(ssa.CallInstruction)
+				if !isCall || !ci.Common().IsInvoke() || ci.Common().Method.Name() != "Write" {
+					continue
+				}
+				if len(ci.Common().Args) == 1 && cuts(ci.Common().Args[0], 0) {
+					ok = true
 				}
 			}
 		}
